@@ -37,6 +37,9 @@ type Recorder struct {
 	Log    []string
 	// Rejecting makes every create/update fail (a rule set the factory / repository refuses, e.g. a path owned by another source).
 	Rejecting bool
+	// RejectSource, when set, makes creates/updates of the sources it names fail (one rule set that cannot be applied,
+	// e.g. because it conflicts with a rule set of another provider) while the others are accepted.
+	RejectSource func(source string) bool
 	// TolerateUpdateOfAbsent: the Kubernetes informer delivers updates for objects whose creation was rejected.
 	TolerateUpdateOfAbsent bool
 	Calls                  int
@@ -64,7 +67,7 @@ func (p *Recorder) OnCreated(rs *rconfig.RuleSet) error {
 	if len(rs.Rules) == 0 {
 		p.run.Fail("empty-rule-set-loaded", p.provider, "OnCreated with an empty rule set for %s", short(rs.Source))
 	}
-	if p.Rejecting {
+	if p.Rejecting || (p.RejectSource != nil && p.RejectSource(rs.Source)) {
 		return ErrRejected
 	}
 	p.active[rs.Source] = id
@@ -87,7 +90,7 @@ func (p *Recorder) OnUpdated(rs *rconfig.RuleSet) error {
 	if ok && cur == id {
 		p.run.Fail("unchanged-content-reloaded", p.provider, "OnUpdated for %s with content %s that is already active: unchanged content triggered a reload", short(rs.Source), id)
 	}
-	if p.Rejecting {
+	if p.Rejecting || (p.RejectSource != nil && p.RejectSource(rs.Source)) {
 		return ErrRejected
 	}
 	p.active[rs.Source] = id
